@@ -1,12 +1,14 @@
 package main
 
 import (
+	"bytes"
 	"crypto/sha1"
 	"encoding/hex"
 	"fmt"
 	"os"
 	"sort"
 	"strings"
+	"time"
 
 	corestore "cosmossdk.io/core/store"
 	"github.com/cosmos/iavl"
@@ -191,7 +193,114 @@ func digest(s string) string {
 // (crash-free) on the live tree; its physical writes are recorded; every prefix of them is turned
 // into a database image that is reopened, observed, and on which the operation is retried.
 // Result: "cr(ok,n=<writes>);<result of the operation>" or "cr(viol,op=..,i=k/n,kind=..);<result>".
+// execCrashBigImport: "crash bigimport <leaves>". A scratch tree with that many leaves (not part of
+// the modelled history) is exported and imported into an empty database below the recording
+// wrapper; the unsynced batch writes - which the importer issues from a background goroutine -
+// are slowed down, so that the ORDER in which the physical batches reach the database is the one
+// the importer enforces, not the one a fast backend happens to produce. Every prefix of the
+// recorded batches is then opened: the database must be empty, or hold the imported version
+// complete (hash, size, full walk); nodes without a root make Load() fail (kind loaderr, the
+// recorded mechanism of an import cut before its root); a VISIBLE version with nodes missing is
+// kind mixture.
+func execCrashBigImport(leaves int) string {
+	src := dbm.NewMemDB()
+	t := iavl.NewMutableTree(src, 0, true, iavl.NewNopLogger())
+	for i := 0; i < leaves; i++ {
+		if _, err := t.Set([]byte(fmt.Sprintf("key%07d", i*7919%10000019)), []byte(fmt.Sprint(i))); err != nil {
+			return "cr(skip);ok"
+		}
+	}
+	if _, _, err := t.SaveVersion(); err != nil {
+		return "cr(skip);ok"
+	}
+	imm, err := t.GetImmutable(1)
+	if err != nil {
+		return "cr(skip);ok"
+	}
+	nodes, err := exportAll(imm)
+	if err != nil {
+		return "cr(skip);ok"
+	}
+	wantHash, wantSize := imm.Hash(), imm.Size()
+	h := &hooks{record: true, slowWrite: 300 * time.Millisecond}
+	db := dbm.NewMemDB()
+	it := iavl.NewMutableTree(&wrapDB{inner: db, h: h}, 0, true, iavl.NewNopLogger())
+	done := make(chan error, 1)
+	go func() {
+		imp, err := it.Import(1)
+		if err != nil {
+			done <- err
+			return
+		}
+		defer imp.Close()
+		for _, n := range nodes {
+			if err := imp.Add(n); err != nil {
+				done <- err
+				return
+			}
+		}
+		done <- imp.Commit()
+	}()
+	select {
+	case err := <-done:
+		if err != nil {
+			return "cr(viol,op=bigimport,i=0/0,kind=importerr);ok"
+		}
+	case <-time.After(120 * time.Second):
+		return "cr(viol,op=bigimport,i=0/0,kind=hang);ok"
+	}
+	time.Sleep(2 * h.slowWrite) // a background write still in flight after Commit returned would show as a missing batch
+	h.mu.Lock()
+	writes := append([][]rawOp{}, h.writes...)
+	h.mu.Unlock()
+	kinds := map[string]bool{}
+	first := ""
+	for i := 0; i <= len(writes); i++ {
+		img := imageDB(nil, writes[:i])
+		t2 := iavl.NewMutableTree(img, 0, true, iavl.NewNopLogger())
+		lv, lerr := t2.Load()
+		kind := ""
+		switch {
+		case lerr != nil:
+			kind = "loaderr"
+		case lv == 0 && len(t2.AvailableVersions()) == 0:
+		case lv == 1:
+			cnt := int64(0)
+			im2, e2 := t2.GetImmutable(1)
+			if e2 != nil {
+				kind = "mixture"
+			} else {
+				im2.IterateRange(nil, nil, true, func(_, _ []byte) bool { cnt++; return false })
+				if cnt != wantSize || !bytes.Equal(im2.Hash(), wantHash) {
+					kind = "mixture"
+				}
+			}
+		default:
+			kind = "mixture"
+		}
+		_ = t2.Close()
+		if kind != "" && !kinds[kind] {
+			kinds[kind] = true
+			if first == "" {
+				first = fmt.Sprintf("%d/%d", i, len(writes))
+			}
+		}
+	}
+	if len(kinds) == 0 {
+		return fmt.Sprintf("cr(ok,n=%d,batches=%d);ok", len(writes)+1, len(writes))
+	}
+	var ks []string
+	for k := range kinds {
+		ks = append(ks, k)
+	}
+	sort.Strings(ks)
+	return fmt.Sprintf("cr(viol,op=bigimport,i=%s,kind=%s);ok", first, strings.Join(ks, "+"))
+}
+
 func (s *Sys) execCrash(op []string) string {
+	if op[0] == "bigimport" {
+		return execCrashBigImport(int(atoi(op[1])))
+	}
 	if s.hooks == nil {
 		return "cr(nowrap);" + s.Exec(op)
 	}
